@@ -119,6 +119,7 @@ inductive Atom where
   | sfval1              -- `V1Currency(NewCurrency64(x))`; decoder rejects `Hi != 0`
   | cur1pad             -- `(V1Currency{}).EncodeTo(e)` / `(&V1Currency{}).DecodeFrom(d)` (value discarded)
   | ubytes              -- `n := d.ReadUint64(); make([]byte, n); d.Read(..)` WITHOUT guard
+  | cbytes              -- rhp `readN(d, buf, d.ReadUint64())`: no guard, buffer grown as data arrives
   deriving DecidableEq, Repr, Inhabited
 
 /-- A codec for one (atomic or externally modelled) wire form. `dec strict slack`;
@@ -234,6 +235,17 @@ def Atom.codec (lim : Nat) : Atom → Codec
         | .ok (n, _) => if lim < n then 0 else n
         | .error _ => 0
       canon := isBytes (fun b => b.length < W64 && b.length ≤ lim), minLen := 8, depth := 1, guarded := false }
+  | .cbytes => {
+      -- `readN`: the announced length is not compared with the reader's allowance, but the
+      -- buffer only grows (16 KiB chunks) by what was really read; a short read is an error
+      enc := fun v => match v with | .bytes b => u64le b.length ++ b | _ => []
+      dec := fun _ _ bs => match readU64 bs with
+        | .ok (n, r) => okBytes (takeN n r)
+        | .error e => .error e
+      alloc := fun _ bs => match readU64 bs with
+        | .ok (n, r) => min n r.length
+        | .error _ => 0
+      canon := isBytes (fun b => b.length < W64), minLen := 8, depth := 1, guarded := true }
 
 /-! ## schemas -/
 
@@ -246,6 +258,7 @@ inductive Sch where
   | slice (s : Sch)      -- `EncodeSlice*` / `DecodeSlice*` (guarded, grown by `append`)
   | opt (s : Sch)        -- `EncodePtr` / `DecodePtr`
   | uslice (s : Sch)     -- `make([]T, d.ReadUint64())` WITHOUT guard, then a loop
+  | aslice (s : Sch)     -- `n := d.ReadUint64(); for i < n { decode; append }`: no guard, grown by `append`
   | ext (name : String)  -- irregular codec, modelled by hand and supplied by the environment
   deriving DecidableEq, Repr, Inhabited
 
@@ -262,6 +275,7 @@ namespace Sch
 @[match_pattern, reducible] def sfval1 : Sch := .atom .sfval1
 @[match_pattern, reducible] def cur1pad : Sch := .atom .cur1pad
 @[match_pattern, reducible] def ubytes : Sch := .atom .ubytes
+@[match_pattern, reducible] def cbytes : Sch := .atom .cbytes
 
 /-- record from a field list (what the extractor prints) -/
 def seq : List (String × Sch) → Sch
@@ -301,6 +315,7 @@ def Sch.minLen (E : Env) : Sch → Nat
   | .slice _ => 8
   | .opt _ => 1
   | .uslice _ => 8
+  | .aslice _ => 8
   | .ext n => (E.ext n).minLen
 
 /-- well-formed: every slice element occupies at least one byte. (Otherwise the real
@@ -312,6 +327,7 @@ def Sch.wf (E : Env) : Sch → Bool
   | .slice s => s.wf E && decide (1 ≤ s.minLen E)
   | .opt s => s.wf E
   | .uslice s => s.wf E && decide (1 ≤ s.minLen E)
+  | .aslice s => s.wf E && decide (1 ≤ s.minLen E)
   | .ext _ => true
 
 /-- no unguarded allocation anywhere -/
@@ -322,6 +338,7 @@ def Sch.guarded (E : Env) : Sch → Bool
   | .slice s => s.guarded E
   | .opt s => s.guarded E
   | .uslice _ => false
+  | .aslice s => s.guarded E
   | .ext n => (E.ext n).guarded
 
 /-- nesting depth of allocating constructs (the constant of the allocation bound) -/
@@ -332,6 +349,7 @@ def Sch.depth (E : Env) : Sch → Nat
   | .slice s => s.depth E + 1
   | .opt s => s.depth E
   | .uslice s => s.depth E + 1
+  | .aslice s => s.depth E + 1
   | .ext n => (E.ext n).depth
 
 /-- `Canon s v`: `v` is a well-typed value of schema `s` (as a Bool). -/
@@ -344,6 +362,7 @@ def canon (E : Env) : Sch → Val → Bool
   | .uslice s, v => match v with
       | .list vs => decide (vs.length < W64) && decide (vs.length ≤ E.lim) && vs.all (canon E s)
       | _ => false
+  | .aslice s, v => match v with | .list vs => decide (vs.length < W64) && vs.all (canon E s) | _ => false
   | .ext n, v => (E.ext n).canon v
 
 abbrev Canon (E : Env) (s : Sch) (v : Val) : Prop := canon E s v = true
@@ -364,6 +383,7 @@ def enc (E : Env) : Sch → Val → Bytes
       | .some a => 1 :: enc E s a
       | _ => []
   | .uslice s, v => match v with | .list vs => u64le vs.length ++ encList (enc E s) vs | _ => []
+  | .aslice s, v => match v with | .list vs => u64le vs.length ++ encList (enc E s) vs | _ => []
   | .ext n, v => (E.ext n).enc v
 
 /-! ## decoder -/
@@ -420,6 +440,10 @@ def decG (E : Env) (strict : Bool) (slack : Nat) : Sch → Bytes → DecRes
       if E.lim < n then .error .panic
       else okList (decRep (decG E strict slack s) n r)
     | .error e => .error e
+  | .aslice s, bs =>
+    match readU64 bs with
+    | .ok (n, r) => okList (decRep (decG E strict slack s) n r)
+    | .error e => .error e
   | .ext n, bs => (E.ext n).dec strict slack bs
 
 /-- the real decoder -/
@@ -463,6 +487,10 @@ def allocOf (E : Env) (slack : Nat) : Sch → Bytes → Nat
     | .ok (n, r) =>
       if E.lim < n then 0
       else n + allocRep (decG E false slack s) (allocOf E slack s) n r
+    | .error _ => 0
+  | .aslice s, bs =>
+    match readU64 bs with
+    | .ok (n, r) => allocRep (decG E false slack s) (allocOf E slack s) n r
     | .error _ => 0
   | .ext n, bs => (E.ext n).alloc slack bs
 
